@@ -16,7 +16,7 @@ rundemo() {
         cargo test --offline --test zz_demo >/tmp/demo.$$.log 2>&1; rc=$?
         rm -f tests/zz_demo.rs
     else
-        WT="$WT" sh "$D/demo.sh" "$WT" >/tmp/demo.$$.log 2>&1; rc=$?
+        WT="$WT" bash "$D/demo.sh" "$WT" >/tmp/demo.$$.log 2>&1; rc=$?
     fi
     return $rc
 }
